@@ -191,7 +191,7 @@ def fam_leak(w: World) -> None:
         variant = 'view' if variant.endswith('view') else 'function'
     is_async = bool(ch.draw(2, 'leak.async'))
     n = [1, 10, 1000][ch.weighted([3, 3, 1], 'leak.n')]
-    outcome_kind = ch.choice(['ok', 'nobind', 'raises', 'notification', 'batch'], 'leak.request')
+    outcome_kind = ch.choice(['ok', 'nobind', 'raises', 'notification', 'batch', 'noparams', 'named'], 'leak.request')
     w.scenario = {'variant': variant, 'async': is_async, 'dispatches': n, 'request': outcome_kind}
     w.nontrivial = True
     w.probe('leak.' + variant)
@@ -200,7 +200,8 @@ def fam_leak(w: World) -> None:
     vkw: Dict[str, Any] = {}
     if variant.startswith('jsonschema'):
         validator = pj_jsonschema.JsonSchemaValidator()
-        vkw = {'schema': {'type': 'object', 'properties': {'tok': {'type': 'string'}}, 'required': ['tok']}}
+        vkw = {'schema': {'type': 'object', 'properties': {'tok': {'type': 'string'}, 'value': {'type': 'integer'}},
+                          'additionalProperties': False}}
     elif variant.startswith('pydantic'):
         from pjrpc.server.validators import pydantic as pj_pydantic
         validator = pj_pydantic.PydanticValidator()
@@ -216,7 +217,7 @@ def fam_leak(w: World) -> None:
                 self.context = context
                 weak.append(('view', weakref.ref(self)))
 
-            def work(self, tok: str, value: int = 0) -> Any:
+            def work(self, tok: str = 'dflt', value: int = 0) -> Any:
                 if value == -1:
                     raise ValueError('scripted')
                 return [tok, value]
@@ -227,7 +228,7 @@ def fam_leak(w: World) -> None:
     else:
         positional = variant == 'function_positional_ctx'
 
-        def work(ctx: Any, tok: str, value: int = 0) -> Any:
+        def work(ctx: Any, tok: str = 'dflt', value: int = 0) -> Any:
             if value == -1:
                 raise ValueError('scripted')
             return [tok, value]
@@ -262,6 +263,10 @@ def fam_leak(w: World) -> None:
             doc = {'jsonrpc': '2.0', 'method': method_name, 'params': {'tok': tok, 'zzz': 1}, 'id': k}
         elif outcome_kind == 'raises':
             doc = {'jsonrpc': '2.0', 'method': method_name, 'params': [tok, -1], 'id': k}
+        elif outcome_kind == 'noparams':
+            doc = {'jsonrpc': '2.0', 'method': method_name, 'id': k}
+        elif outcome_kind == 'named':
+            doc = {'jsonrpc': '2.0', 'method': method_name, 'params': {'tok': tok, 'value': k}, 'id': k}
         elif outcome_kind == 'notification':
             doc = {'jsonrpc': '2.0', 'method': method_name, 'params': [tok, k]}
         else:
@@ -288,7 +293,7 @@ def fam_leak(w: World) -> None:
         del ctx_obj, reply
     w.rec('server', 'leak.dispatched', n=n, variant=variant, first=replies[0][0][:120] if replies[0] else None)
     first = replies[0]
-    if outcome_kind == 'ok' and (first is None or '"result"' not in first[0]):
+    if outcome_kind in ('ok', 'noparams', 'named') and (first is None or '"result"' not in first[0]):
         w.violate('C13.leak.reply', f'variant {variant}: unexpected reply {first!r}', variant=variant)
     del replies, first
     gc.collect()
@@ -307,10 +312,91 @@ def fam_leak(w: World) -> None:
         w.violate('C13.registry', 'the error-class registry changed while dispatching', variant=variant)
 
 
-FAMILIES = {'history': fam_history, 'threads': fam_threads, 'tasks': fam_tasks, 'leak': fam_leak}
+def fam_cancel(w: World) -> None:
+    """A dispatch is cancelled while its (batch) elements are suspended: nothing of it may live on afterwards."""
+    ch = w.ch
+    cfg = S.draw_config(ch, 3, middlewares=True, handlers=False, force_async=True)
+    cfg['max_batch_size'] = None
+    cfg['concurrent_batch'] = not ch.flag(1, 4, 'sequential')
+    n = 1 + ch.draw(3, 'n')
+    ids = ch.shuffle(S.ELEMENT_IDS, 'ids')
+    els = []
+    for k in range(n):
+        tok = f'x{k}'
+        els.append({'jsonrpc': '2.0', 'method': ch.choice(['slow', 'echo', 'none'], 'method'), 'params': [tok],
+                    **({} if ch.flag(1, 4, 'notification') else {'id': ids[k]})})
+        w.plan[('method', tok)] = [ch.choice([0.125, 1.0, 30.0, 0.0], 'pause.d') for _ in range(1 + ch.draw(2, 'pause.n'))]
+        for i in range(len(cfg['middlewares'])):
+            w.plan[('mw', i, tok)] = [ch.choice(gen.PAUSES, 'pause.d') for _ in range(ch.draw(2, 'pause.mw'))]
+    text = json.dumps(els if (n > 1 or ch.draw(2, 'as_batch')) else els[0])
+    cancel_at = ch.choice([0.0, 0.0625, 0.125, 0.5, 1.0, 1.125, 2.0, 30.0, 31.0], 'cancel.at')
+    w.scenario = {'cfg': cfg, 'text': text, 'cancel_at': cancel_at}
+    w.nontrivial = True
+    ctx_obj = Ctx(0)
+    ctx_ref = weakref.ref(ctx_obj)
+    sut = S.ServerUnderTest(w, cfg, node='shared', extra_kwargs={'concurrent_batch': cfg['concurrent_batch']})
+    loop = sut.loop
+    assert loop is not None
+    task = loop.create_task(sut.dispatcher.dispatch(text, ctx_obj))
+    cancelled = []
+
+    def do_cancel() -> None:
+        if not task.done():
+            cancelled.append(w.now)
+            w.fault('cancel', at=w.now)
+            task.cancel()
+
+    loop.call_at(w.now + cancel_at, do_cancel)
+    try:
+        loop.run_until_complete(task)
+        outcome = 'returned'
+    except asyncio.CancelledError:
+        outcome = 'cancelled'
+    except Exception as e:  # noqa: BLE001
+        w.violate('C13.cancel', f'dispatch raised {type(e).__name__}: {e}', mode='cancel')
+        return
+    mark = w.rec('server', 'cancel.done', outcome=outcome)
+    del task, ctx_obj
+    if outcome == 'cancelled':
+        w.probe('dispatch_cancelled_mid_flight')
+    # serve an unrelated request on the same dispatcher and let every timer of the cancelled one expire
+    probe_text = json.dumps({'jsonrpc': '2.0', 'method': 'echo', 'params': ['probe', 1], 'id': 99})
+    got = _reply_view(sut.deliver(probe_text))
+    fresh = S.ServerUnderTest(w, cfg, node='fresh', extra_kwargs={'concurrent_batch': cfg['concurrent_batch']})
+    want = _reply_view(fresh.deliver(probe_text))
+    if got != want:
+        w.violate('C13.cancel', f'after a cancelled dispatch the probe got {got}, a fresh dispatcher {want}', mode='cancel')
+
+    # let the loop deliver the cancellation to every element (no clock jump), then nothing may pin the context
+    from ..loop import settle
+    settle(loop)
+    gc.collect()
+    if ctx_ref() is not None:
+        w.violate('C13.leak', f'the context of a {outcome} dispatch is still referenced after the dispatch ended, the next '
+                  f'request was served and gc.collect() ran', variant='cancel', kinds=['context'])
+        return
+
+    async def drain() -> None:
+        await asyncio.sleep(100.0)
+    loop.run_until_complete(drain())
+    if outcome == 'cancelled':
+        # delivery of CancelledError to sibling elements right after the cancellation is clean-up, not progress
+        late = [r for r in w.history if r['seq'] > mark and r['node'] == 'shared' and str(r.get('tok', '')).startswith('x')
+                and not (r['kind'] == 'method.exit' and r.get('exc') == 'CancelledError')
+                and not (r['kind'] == 'mw.exit')]
+        if late:
+            w.violate('C13.cancel', f'work of the cancelled dispatch went on after it had been cancelled: '
+                      f'{[(r["kind"], r.get("tok")) for r in late][:4]}', mode='cancel', late=late[0]['kind'])
+    gc.collect()
+    if ctx_ref() is not None:
+        w.violate('C13.leak', f'the context of a {outcome} dispatch is still referenced after gc.collect()',
+                  variant='cancel', kinds=['context'])
+
+
+FAMILIES = {'history': fam_history, 'threads': fam_threads, 'tasks': fam_tasks, 'leak': fam_leak, 'cancel': fam_cancel}
 PLAN = {
-    'quick': {'history': 2100, 'threads': 1700, 'tasks': 3500, 'leak': 2800},
-    'thorough': {'history': 10000, 'threads': 10000, 'tasks': 20000, 'leak': 10000},
+    'quick': {'history': 2100, 'threads': 1700, 'tasks': 3500, 'leak': 2800, 'cancel': 4000},
+    'thorough': {'history': 10000, 'threads': 10000, 'tasks': 20000, 'leak': 10000, 'cancel': 20000},
 }
 CHUNK = 25
 THOROUGH_BUDGET_S = 600
